@@ -91,6 +91,10 @@ def ob_hub_proxy(ctx):
         for i in range(nred):
             reds.append(Agg('()', (StrV(z3.Int('dst%d' % i)), W.mk.coin(W.iv('red_amt%d' % i, 0, CAP), W.denom))))
         msg = W.msg('RedelegateProxy', src_validator=src, redelegations=VecV(reds))
+        W.mv['src_id'] = src.id
+        for i in range(nred):
+            W.mv['dst%d' % i] = reds[i].fields[0].id
+        raw_scenario(W, 'execute', msg, W.registry, querier=hub_querier_template(W))
         n = 0
         for st, res in W.execute(msg, W.registry):
             if isinstance(res, Panic) or res.vname != 'Ok':
@@ -121,6 +125,20 @@ def ORACLE(v, scn, out):
     key = v.get('key') or ''
     res = out.get('result', {})
     what = key.split(':')[1]
+    if key.startswith('proxy:'):
+        if what == 'fails':
+            return [] if 'ok' in res else ['RedelegateProxy from the registry failed: ' + str(res)[:200]]
+        if 'ok' not in res:
+            return []
+        body = scn['msg']['redelegate_proxy']
+        got = [m_['msg']['staking']['redelegate'] for m_ in res['ok']['messages'] if 'staking' in m_['msg'] and 'redelegate' in m_['msg']['staking']]
+        want = [{'src_validator': body['src_validator'], 'dst_validator': d_, 'amount': c_} for d_, c_ in body['redelegations']]
+        bad = []
+        if what in ('count', 'forward') and (got != want or len(res['ok']['messages']) != len(want)):
+            bad.append('staking messages %r for entries %r' % (got, want))
+        if what == 'frame' and sorted(map(tuple, scn['storage'])) != sorted(map(tuple, out.get('storage', []))):
+            bad.append('storage changed')
+        return bad
     post = {base64.b64decode(k): base64.b64decode(val) for k, val in out.get('storage', [])}
     pre = {base64.b64decode(k): base64.b64decode(val) for k, val in scn.get('storage', [])}
     rp = rawstore.lp(b'validators_registry')
@@ -153,6 +171,19 @@ def ORACLE(v, scn, out):
                 bad.append('redelegation to %s which is not a remaining registered validator' % d)
     if what == 'nonzero' and any(int(c['amount']) == 0 for _, c in reds):
         bad.append('zero redelegation')
-    if what in ('whole', 'left_behind', 'shape', 'when'):
-        return None
+    fd = (scn['querier'].get('full_delegations') or [{}])[0]
+    has = bool(fd.get('present', False))
+    amount, can = int(fd.get('amount', 0)), int(fd.get('can_redelegate', 0))
+    if what == 'whole' and reds and total != amount:
+        bad.append('redelegates %d of the %d delegated on the removed validator' % (total, amount))
+    if what == 'when' and reds and not (has and can >= amount):
+        bad.append('redelegation although the chain reports delegation=%r can_redelegate=%d amount=%d' % (has, can, amount))
+    if what == 'left_behind' and not msgs and has and can >= amount and amount > 0:
+        bad.append('a redelegatable delegation of %d is left on the removed validator' % amount)
+    if what == 'shape' and msgs:
+        inner = [m_['msg']['wasm']['execute']['msg'] for m_ in msgs if 'wasm' in m_['msg']]
+        if not (len(msgs) == 2 and len(inner) == 2 and 'redelegate_proxy' in inner[0] and 'update_global_index' in inner[1]):
+            bad.append('messages: %r' % [list(i_.keys()) if isinstance(i_, dict) else i_ for i_ in inner])
+    if what == 'target' and any(m_['msg']['wasm']['execute']['contract_addr'] != 'hub_contract' for m_ in msgs):
+        bad.append('message not sent to the hub')
     return bad
